@@ -154,8 +154,13 @@ def valid_case(draw, tier="quick"):
         # carried in a coarser unit than the data, dtype= possibly given explicitly
         unit = draw(st.sampled_from(["ms", "us", "ns"]))
         xs = [v if v is None else v + draw(st.sampled_from([0.0, 0.0, 0.5, -0.5, 0.125])) for v in xs]
-        extra = {"bound_unit": draw(st.sampled_from(["same", "s"])),
-                 "dtype_param": draw(st.sampled_from([None, "datetime64", "unit"]))}
+        # instants less than one whole second inside / outside each bound
+        planted = [lo + 0.5, lo + 0.125, lo - 0.5, hi - 0.5, hi - 0.125, hi + 0.5]
+        for i in range(len(xs)):
+            if xs[i] is not None and draw(st.integers(0, 2)) == 0:
+                xs[i] = draw(st.sampled_from(planted))
+        extra = {"bound_unit": draw(st.sampled_from(["same", "s", "s"])),
+                 "dtype_param": draw(st.sampled_from([None, "datetime64", "datetime64", "unit"]))}
     return {"kind": kind, "x": xs, "lo": lo_c, "hi": hi_c, "si": draw(st.booleans()), "ei": draw(st.booleans()), **extra,
             "unit": unit, "absent_as": draw(st.sampled_from(["none", "nan"])),
             "bound_type": draw(st.sampled_from(["np", "py"])), "span_kind": draw(st.sampled_from(["list", "tuple"])),
@@ -215,12 +220,15 @@ def check_valid(case, rec):
         labels.append("bound_absent")
     if case.get("mask_carrier", "none") != "none" and any(v is None for v in x):
         labels.append("masked_" + case["mask_carrier"])
+    if case.get("dtype_param") and case.get("bound_type") == "np":
+        labels.append("dtype_given")
+    if any(v is not None and float(v) != int(v) for v in x):
+        labels.append("subsecond_data")
     rec.note(on, labels)
     a, span = _valid_inputs(case)
     kw = {} if case.get("defaults") else {"start_inclusive": si, "end_inclusive": ei}
     if case.get("dtype_param") and case.get("bound_type") == "np":
         kw["dtype"] = "datetime64" if case["dtype_param"] == "datetime64" else f"datetime64[{case['unit']}]"
-        labels.append("dtype_given")
     site = "axds.valid_range_test"
     got = flags(rec, site, rec.call(site, _vr(), a, span, **kw), len(x))
     if got is SKIP:
@@ -259,6 +267,15 @@ def enum_cases(chunk):
                         for absent_as in ("none", "nan"):
                             yield {"kind": kind, "x": data, "lo": lo, "hi": hi, "si": si, "ei": ei, "unit": "s",
                                    "absent_as": absent_as, "bound_type": "np", "span_kind": "tuple", "_e": "valid"}
+                        if kind == "dt":
+                            # millisecond data half a second beside every bound, bounds in the same or a coarser unit,
+                            # dtype= absent / unit-less / exact
+                            fine = [v + d for v in (-1, 0, 1, 2, 3, 4, 5) for d in (0.0, 0.5)] + [None]
+                            for bu in ("same", "s"):
+                                for dp in (None, "datetime64", "unit"):
+                                    yield {"kind": kind, "x": fine, "lo": lo, "hi": hi, "si": si, "ei": ei, "unit": "ms",
+                                           "absent_as": "none", "bound_type": "np", "span_kind": "list", "bound_unit": bu,
+                                           "dtype_param": dp, "_e": "valid"}
 
 
 def check_enum(case, rec):
@@ -278,7 +295,8 @@ SUBS = [
 ENUMS = [Enum("range_grid", enum_chunks, enum_cases, check_enum,
               describe="gross_range: all fail spans x all suspect spans (or none) over the integer grid {0..4}^2 x {0..4}^2, "
                        "both orders, data = every grid point and half point and a missing value; valid_range: all "
-                       "(lo<=hi or absent) bounds over {0..4} x 4 inclusivity settings x float/datetime",
+                       "(lo<=hi or absent) bounds over {0..4} x 4 inclusivity settings x float/datetime (datetime also with "
+                       "millisecond data half a second beside each bound x bounds in the same/coarser unit x dtype= absent/unit-less/exact)",
               tiers=("quick", "thorough"))]
 REQUIRED_CLASSES = ["gross_range:on_bound", "gross_range:reversed_span", "valid_range:on_bound",
                     "valid_range:bound_absent", "valid_range:kind=dt"]
